@@ -8,6 +8,22 @@ COMMON_TRUST = [
 ]
 
 PROPS = {
+    'C02': dict(
+        units=['encode', 'decode', 'status', 'reqresp', 'metadata'], level='proof',
+        witness=[dict(append_to='tonic/src/status.rs', module='replay/status_witness.rs', crate='tonic', filter='verif_witness_status', features=['--features', 'gzip,deflate,zstd'])],
+        not_covered=[
+            'PARTIAL: decided here is the hand-off of status / trailers / metadata at both ends - server: EncodeBody turns the handler status (or OK) into exactly one trailers block written(st) after every message frame (enc_step); client: Streaming yields the buffered messages first (N1), then the status read from the trailers (response: read(trailers, st)), exactly once (F3); Status write/read round trip (lemma_status_roundtrip); Request/Response head construction',
+            'NOT covered: the async glue of server::Grpc::{unary,server_streaming,client_streaming,streaming,map_request_*,map_response} and client::Grpc::{unary,client_streaming,server_streaming,streaming,create_response} (accepted by this Verus in probes, not built in this round)',
+            'the HTTP/2 transport between the two ends (hyper/h2): that the client http::Response carries the status line, headers, DATA and trailers the server produced, under any fragmentation',
+        ]),
+    'C16': dict(
+        units=['webserver'], level='proof',
+        not_covered=[
+            'encode_trailers (trailers.iter().fold(..), an iterator adapter) is linked as assumed contract A-tonic-web-03: that the 0x80 frame lists EVERY trailer is not decided here',
+            'base64 itself (RFC 4648, decode of concatenated unpadded quanta) is assumed (A-b64-01); the whole-body statement follows from the per-call conservation clauses B1-B3 only under that assumption',
+            'service.rs (request classification 405/400/pass-through, coerce_request/response) is not yet under contract in this build',
+            'CORS handling and the GrpcWebLayer wiring',
+        ]),
     'C17': dict(
         units=['webclient'], level='proof',
         witness=[dict(append_to='tonic-web/src/call.rs', module='replay/web_client_chunking.rs', crate='tonic-web', filter='verif_witness_web_client')],
